@@ -16,7 +16,7 @@
    execution (op-level oracle), not proved: the dynamic clause is PARTIAL. *)
 From VF Require Import Base.Prelude Gen.Enums Gen.Configs Gen.Checks Model.Graph Gen.InstChecks
      Model.Perform Model.Sem Spec.WF Proofs.ListFacts Proofs.PerformStep Proofs.ModeProofs
-     Proofs.SemProofs Proofs.SemGlue Proofs.SemRun.
+     Spec.Interleave Proofs.SemProofs Proofs.SemGlue Proofs.SemRun.
 
 Theorem C06_dequantize_insertion_preserves_meaning :
   forall (val : Type) (K : Z -> Z -> list (option val) -> list val)
